@@ -22,7 +22,9 @@
 //     loop state), `return`; expressions: integer arithmetic (`/` `%` by non-zero constants), comparisons, `&&` `||`,
 //     `len`, checked `xs[i]`, `float64(i)`, `int(f)`, float `+ - * /` and constants as in `funcn`, `e != nil` of an error local.
 //
-// Hook: one `case "funce"` in main.go.  Gate: module names starting with `K19b` (`kfinishOn`).
+//   - `return F(args)` of an abstract callee with the function's own result types `(T, error)`: the field yields `Option S`.
+//
+// Hook: one `case "funce"` in main.go.  Gate: module names starting with `K19b` / `K16c` (`kfinishOn`).
 package main
 
 import (
@@ -36,7 +38,7 @@ import (
 	"golang.org/x/tools/go/packages"
 )
 
-func kfinishOn() bool { return strings.HasPrefix(curModule, "K19b") }
+func kfinishOn() bool { return strings.HasPrefix(curModule, "K19b") || strings.HasPrefix(curModule, "K16c") }
 
 type kfinBind struct{ v, op string }
 
@@ -504,6 +506,37 @@ func (c *kfinCtx) retNone() string {
 
 // isErrReturn: `return nil, <non-nil>` (true) / `return v, nil` (false, v)
 func (c *kfinCtx) retStmt(r *ast.ReturnStmt, lvl int) (string, error) {
+	if len(r.Results) == 1 {
+		if call, ok := r.Results[0].(*ast.CallExpr); ok {
+			if tup, ok := c.p.TypesInfo.TypeOf(call).(*types.Tuple); ok && tup.Len() == 2 && kfinIsObject(tup.At(0).Type()) &&
+				types.Identical(tup.At(1).Type(), types.Universe.Lookup("error").Type()) {
+				field, recv, err := c.callee(call)
+				if err != nil {
+					return "", err
+				}
+				var pre []kfinBind
+				args, typs, slices, err := c.callArgs(call, &pre)
+				if err != nil {
+					return "", err
+				}
+				if recv != "" || len(slices) > 0 {
+					return "", c.fail("return of a call with a local object / slice argument")
+				}
+				if err := c.envField(field, strings.Join(append(typs, "Option S"), " → ")); err != nil {
+					return "", err
+				}
+				app := "env." + field
+				if len(args) > 0 {
+					app += " " + strings.Join(args, " ")
+				}
+				ret := ".ok"
+				if c.depth > 0 {
+					ret = ".ret"
+				}
+				return c.flush(pre, lvl) + fmt.Sprintf("%s%s (%s)\n", kfinInd(lvl), ret, app), nil
+			}
+		}
+	}
 	if len(r.Results) != 2 {
 		return "", c.fail("return with %d results", len(r.Results))
 	}
